@@ -7,7 +7,7 @@ HERE = os.path.dirname(os.path.abspath(__file__))
 TECH = "bounded model checking of the compiled Rust code: Kani 0.68 / CBMC 6.11 (CaDiCaL) over #[kani::proof] harnesses with kani::any() inputs"
 TECH_MIR = TECH + "; plus path-exploring symbolic execution of the rustc MIR of the real functions with z3 (mirsym)"
 MIR_ONLY = "path-exploring symbolic execution of the rustc MIR of the real functions (cargo +nightly rustc -Zunpretty=mir) with z3 deciding branch feasibility and the per-path obligations (mirsym)"
-MIRSYM = ("C01", "C11", "C04", "C19", "C18", "C02", "C08", "C09", "C05", "C12", "C20", "C07", "C16", "C13", "C03", "C10", "C14")
+MIRSYM = ("C01", "C11", "C04", "C19", "C18", "C02", "C08", "C09", "C05", "C12", "C20", "C07", "C16", "C13", "C03", "C10", "C14", "C15")
 MIR_ONLY_PROPS = ("C07", "C08", "C09")
 
 CLAIMS = {
@@ -54,7 +54,7 @@ CLAIMS = {
          "Operand text -> (comparison, N, unit): the regex crate is a Kani ICE; decided at MIR level instead (mirsym c11_operands.explore_values: convert_arg_to_comparable_value(_and_suffix) on 21 operand words incl. 2^64-1, 2^64, leading zeros, blanks, empty; regex crate = Python re on the pattern text in the MIR).",
          "4 C14"),
  "C15": ("-atime/-ctime/-mtime = floor(age/86400), -amin/-cmin/-mmin = floor(age/60) on each one's own timestamp for all (s,ns) pairs below 2^40 s with age >= 0; -newer strict at ns resolution with F's record per follow mode; -newerXY = entry.X > F.Y for the nine a/c/m combinations.",
-         "-daystart (chrono Local), -newerXt / date parsing, the -newerXY option-name parser (regex crate), birth time are outside; F dangling is outside c15_newer_strict.",
+         "-daystart (chrono Local), -newerXt / date parsing, birth time are outside; the -newerXY option-name parser (regex crate, a Kani ICE) is decided at MIR level (mirsym: parse_str_to_newer_args on 30 spellings incl. near-misses); F dangling is outside c15_newer_strict.",
          "4 C15"),
  "C16": ("Kani: record directives %s %n %i %U %G %d (decimal, values < 10^5), %m (all twelve bits), escape sequences \\a..\\\\, \\0, \\NNN, \\c. mirsym: the real format parser (FormatString::parse with parse_format_specifier, parse_format_width, parse_escape_sequence) on format strings of 1..2 (thorough 3) items over literals incl. multi-byte text, all escapes, %%, and the path directives %p %f %h %H %P %d each plain, with a width and with '-' + width; then Printf::print + format_directive + get_starting_point on entries of a tree with symbolic names, for four spellings of the starting point: the bytes written equal the reference rendering - every directive's value, padded with blanks on the left (right with '-') to the minimum width, never truncated, everything else verbatim, nothing appended; %H '/' %P recompose %p. mirsym c16_types: %y is the letter of the record the follow mode selects AND a letter for which the real -type test is true on the same entry (symbolic lstat/stat world, -P/-H/-L, depth 0/1, explicit and walkdir entries); %Y / -xtype likewise where the follow mode does not resolve the entry.",
          "Known finding F-C16-H: %H of entries below a starting point spelled with a trailing slash lacks the slash. What write! emits is produced by fmt_model.py (port of core::fmt::write incl. Formatter::pad over the template bytes in the MIR); std::path operations on symbolic names are structural models (components, parent, file_name, ancestors, strip_prefix). %l, time directives (chrono), %u %g (FFI), %F %S %b %k %D, -fprintf's file handling, width on the record directives (Kani side) are outside; %Y under -L is outside (design decision recorded in DESIGN.md).",
